@@ -59,7 +59,8 @@ def project_session(cmd, obs, si, walk):
     sink = obs["sink"]
     hlen = obs["build"].get("sink_len", 0)
     events.append({"ev": "w_build", "si": si, "codec": T(cmd["codec"]), "sync": cmd["sync"], "meta": cmd.get("meta", []),
-                   "schema_json": obs["schema_json"], "header": sink[:hlen], "res": obs["build"]["res"]})
+                   "schema_json": obs["schema_json"], "header": sink[:hlen], "res": obs["build"]["res"],
+                   "json_nodes": obs.get("schema_json_nodes", [])})
     blocks = walk["blocks"]
     ends = {hlen} | {b["end"] for b in blocks}
     prev = hlen
